@@ -7,6 +7,7 @@ import (
 	"os"
 	"path/filepath"
 	"strings"
+	"time"
 
 	"verifharness/child"
 	"verifharness/ref"
@@ -28,6 +29,46 @@ type loggerCase struct {
 	NoEventDir bool   `json:"no_event_log_directory,omitempty"`
 	NoOldDir   bool   `json:"no_directory_for_old_logs,omitempty"`
 	TZ         string `json:"tz,omitempty"` // time zone of the process
+	// the local time of day at which the process starts ("hh:mm:ss"): realised at run time
+	// by a zone file whose offset is the difference from the machine's clock
+	LocalClock string `json:"local_time_of_day_at_start,omitempty"`
+	// the input pauses for SilenceMs after SilenceAfterChunks chunks
+	SilenceAfterChunks int `json:"silence_after_chunks,omitempty"`
+	SilenceMs          int `json:"silence_ms,omitempty"`
+}
+
+// allParked: in a goroutine dump taken after SIGQUIT, is every goroutine that
+// executes code of the program (not only the runtime's own) blocked on a channel, a
+// select or a lock?  Then nothing can ever complete the run.
+func allParked(dump, pathMarker string) bool {
+	i := strings.LastIndex(dump, "SIGQUIT")
+	if i >= 0 {
+		dump = dump[i:]
+	}
+	found := 0
+	for _, g := range strings.Split(dump, "\n\n") {
+		if !strings.Contains(g, pathMarker) {
+			continue
+		}
+		hdr := g
+		if j := strings.IndexByte(g, '\n'); j >= 0 {
+			hdr = g[:j]
+		}
+		if !strings.HasPrefix(hdr, "goroutine ") {
+			continue
+		}
+		found++
+		parked := false
+		for _, st := range []string{"chan send", "chan receive", "select", "sync.", "semacquire"} {
+			if strings.Contains(hdr, st) {
+				parked = true
+			}
+		}
+		if !parked {
+			return false
+		}
+	}
+	return found > 0
 }
 
 func loggerInput(k loggerCase) []byte {
@@ -67,20 +108,27 @@ func execC16(c *child.Ctx, k loggerCase, cj []byte) {
 		var hours int
 		fmt.Sscanf(k.TZ, "fixed%d", &hours)
 		zf := filepath.Join(dir, "zone.tzif")
-		off := int32(hours * 3600)
-		b := append([]byte("TZif"), make([]byte, 16)...)
-		counts := []uint32{0, 0, 0, 0, 1, 4}
-		for _, v := range counts {
-			b = append(b, byte(v>>24), byte(v>>16), byte(v>>8), byte(v))
+		fixedZoneFile(zf, hours*3600)
+		extraEnv = append(extraEnv, "TZ="+zf)
+	} else if k.LocalClock != "" {
+		var hh, mm, ss int
+		fmt.Sscanf(k.LocalClock, "%d:%d:%d", &hh, &mm, &ss)
+		now := time.Now().UTC()
+		off := (hh*3600 + mm*60 + ss) - (now.Hour()*3600 + now.Minute()*60 + now.Second())
+		if off > 43200 {
+			off -= 86400
 		}
-		b = append(b, byte(uint32(off)>>24), byte(uint32(off)>>16), byte(uint32(off)>>8), byte(uint32(off)), 0, 0)
-		b = append(b, 'X', 'X', 'X', 0)
-		os.WriteFile(zf, b, 0644)
+		if off < -43200 {
+			off += 86400
+		}
+		zf := filepath.Join(dir, "zone.tzif")
+		fixedZoneFile(zf, off)
 		extraEnv = append(extraEnv, "TZ="+zf)
 	} else if k.TZ != "" {
 		extraEnv = append(extraEnv, "TZ="+k.TZ)
 	}
-	ak := appCase{ID: k.ID, StdinMode: "pipe", StdoutMode: "fast", Chunk: k.Chunk, ReaderUs: k.GapUs, Procs: k.Procs, HookProfile: k.Hook}
+	ak := appCase{ID: k.ID, StdinMode: "pipe", StdoutMode: "fast", Chunk: k.Chunk, ReaderUs: k.GapUs, Procs: k.Procs, HookProfile: k.Hook,
+		SilenceAfterChunks: k.SilenceAfterChunks, SilenceMs: k.SilenceMs}
 	if k.Stdin == "file" {
 		ak.StdinMode = "file"
 	}
@@ -91,6 +139,11 @@ func execC16(c *child.Ctx, k loggerCase, cj []byte) {
 	res := runAppProcess(c, filepath.Join(c.BinDir, "rtcmlogger"), []string{"-c", filepath.Join(dir, "cfg.json")}, in, ak, dir, extraEnv)
 	switch {
 	case res.TimedOut:
+		if allParked(res.Stderr, "/apps/rtcmlogger/") {
+			c.Violate("did-not-end", fmt.Sprintf("rtcmlogger had not ended 90 s after its whole input (%d bytes) was written and closed, and every goroutine of the program is blocked: it passed %d bytes through (%s)\n%s",
+				len(in), len(res.Stdout), firstDiff(res.Stdout, in), clipText(res.Stderr)), cj)
+			return
+		}
 		c.Inconclusive("rtcmlogger did not exit within 90 s")
 		return
 	case res.ExitCode != 0:
@@ -167,6 +220,25 @@ func monC16(c *child.Ctx, replay json.RawMessage) {
 			k.Hook = "@apps/rtcmlogger/main:writeRTCMLog:write=1300000"
 			k.Size = r.Range(1, 8000)
 			k.Stdin = "pipe-close-at-once"
+		}
+		if i%7 == 3 {
+			// the time of day on the machine: start of an hour, just after midnight, just
+			// before the end of an hour, ... (never within the last minute of a day: the
+			// record of a run that crosses midnight is split over two days by design)
+			hh := r.Intn(24)
+			k.LocalClock = []string{fmt.Sprintf("%02d:00:00", hh), fmt.Sprintf("%02d:00:02", hh), "00:00:01", fmt.Sprintf("%02d:59:58", r.Intn(23)), fmt.Sprintf("%02d:30:00", hh), "23:58:30"}[r.Intn(6)]
+			k.TZ = ""
+			c.Count("runs_at_chosen_time_of_day", 1)
+		}
+		if sb := c.NBatch - 1 - c.Batch; i == 1 && sb < len(timedStalls(c)) {
+			// a live source that falls silent for a while and then carries on
+			k.Stdin, k.Size, k.Chunk, k.GapUs, k.Hook = "pipe", r.Range(9000, 30000), 3000, -2000, ""
+			k.SilenceAfterChunks = r.Range(1, 2)
+			k.SilenceMs = int(timedStalls(c)[sb].Milliseconds())
+			if k.SilenceMs >= 1000 {
+				k.SilenceMs = k.SilenceMs*10 + 500 // 12.5 s; thorough: up to 105 s
+			}
+			c.Count("runs_with_silent_input", 1)
 		}
 		cj := c.BeginV(k)
 		execC16(c, k, cj)
